@@ -119,6 +119,10 @@ theorem send_sync_keys_are_read_only :
     Extracted.Ffi.structs = [("SigningKey", ["LcPtr<EC_KEY>"]), ("Signature", ["LcPtr<ECDSA_SIG>"]), ("VerifyingKey", ["LcPtr<EC_KEY>"])] ∧
     Extracted.Ffi.sharedMutations = [] := by decide
 
+/-- no wrapper consults or changes aws-lc's per-thread / process-wide state (error queue, RNG seeding, global
+    configuration): what a call returns cannot depend on what an earlier — possibly failed — call left behind there -/
+theorem no_thread_state_calls : Extracted.Ffi.threadStateCalls = [] := by decide
+
 /-- clone / construction paths of the *current* source are balanced (C04's exhaustive path check on the translated lists) -/
 theorem extracted_clone_paths_balanced :
     (Extracted.Ffi.fns.filter (fun f => f.name == "<SigningKey as Clone>::clone" || f.name == "<VerifyingKey as Clone>::clone")).length = 2 ∧
